@@ -169,6 +169,19 @@ def sub_req(case):
                         ia = [o for o in objs if (o.prev_txid.hex(), o.output_n_int) in want]
                         if len(ia) != len(want):
                             raise WalletError('select_inputs did not return the funded outputs')
+                    elif method in LONG:
+                        # the long tuple form (txid, output_n, key_id, value): the wallet's own record of an outpoint
+                        # decides, whatever the caller claims; an outpoint the wallet does not hold is refused
+                        ia = []
+                        for pos, ((txid, n), u) in enumerate(sel):
+                            kid = w.key(u['address']).key_id
+                            val = u['value']
+                            if method == 'inputs_all_stale':
+                                val = max(1, (u['value'] * 3) // 5) if pos % 2 else u['value'] + 1234
+                            ia.append((txid, n, kid, val))
+                        if method == 'inputs_all_unknown' and ia:
+                            ia.append(('aa' * 32, 0, ia[-1][2], ia[-1][3]))
+                            sel = sel + [(('aa' * 32, 0), None)]
                     else:
                         ia = [(txid, n) for (txid, n), _ in sel]
                     ia_before = list(ia)
@@ -383,7 +396,8 @@ def _spk_of(address):
 
 SUBS = {'req': sub_req}
 
-EXPLICIT = ('inputs_first', 'inputs_all', 'inputs_second', 'inputs_first_obj', 'inputs_second_obj', 'inputs_all_obj')
+LONG = ('inputs_all_long', 'inputs_all_stale', 'inputs_all_unknown')
+EXPLICIT = ('inputs_first', 'inputs_all', 'inputs_second', 'inputs_first_obj', 'inputs_second_obj', 'inputs_all_obj') + LONG
 DEFAULT = {'method': 'send', 'amount': 2000, 'fee': None, 'nchange': 1, 'recips': 'ext', 'min_confirms': 1,
            'max_utxos': None}
 DIMS = {
@@ -394,7 +408,8 @@ DIMS = {
     'min_confirms': [0, 2],
     'max_utxos': [1, 2],
     'method': ['create', 'send_broadcast', 'send_twice', 'sweep', 'sweep_list', 'inputs_first', 'inputs_all', 'inputs_second',
-               'inputs_first_obj', 'inputs_second_obj', 'inputs_all_obj', 'rbf_bump'],
+               'inputs_first_obj', 'inputs_second_obj', 'inputs_all_obj', 'inputs_all_long', 'inputs_all_stale',
+               'inputs_all_unknown', 'rbf_bump'],
 }
 RND_MENU = [{'randint': v, 'dirichlet': d, 'shuffle': s}
             for v in (1, 2, 3, 4, 5) for d in ('uniform', 'first', 'last', 'near') for s in ('identity',)] + \
